@@ -74,8 +74,8 @@ def find(relpath: str, qualname: str):
             continue
         found = None
         for ch in _children_defs(node):
-            if ch.name == p:
-                found = ch
+            if ch.name == p and found is None:
+                found = ch            # first definition (a property getter precedes its setter)
         if found is None and not isinstance(node, ast.Module):
             # nested def deeper inside statements of a function
             for ch in ast.walk(node):
